@@ -432,6 +432,17 @@ type Conf struct {
 	Paths         map[string]*Path         `json:"-"` // filled by Validate()
 }
 
+// copyDefaultAuthInternalUsers returns a copy of the default users, in the form they have in a loaded configuration.
+// The list of a configuration is edited in place (environment variables, nil slices)
+// and must not be shared with other configurations, that may be in use.
+func copyDefaultAuthInternalUsers() []AuthInternalUser {
+	ret := deepClone(reflect.ValueOf(defaultAuthInternalUsers)).Interface().([]AuthInternalUser)
+	for i := range ret {
+		setAllNilSlicesToEmptyRecursive(reflect.ValueOf(&ret[i]))
+	}
+	return ret
+}
+
 func (conf *Conf) setDefaults() {
 	// General
 	conf.LogLevel = LogLevel(logger.Info)
@@ -446,7 +457,7 @@ func (conf *Conf) setDefaults() {
 
 	// Authentication
 	conf.AuthMethod = AuthMethodInternal
-	conf.AuthInternalUsers = defaultAuthInternalUsers
+	conf.AuthInternalUsers = copyDefaultAuthInternalUsers()
 	conf.AuthJWTClaimKey = "mediamtx_permissions"
 
 	// Control API
@@ -671,7 +682,7 @@ func (conf *Conf) Validate(l logger.Writer) error {
 			"(publishUser, publishPass, publishIPs, readUser, readPass, readIPs). "+
 			"These have been replaced by 'authInternalUsers'")
 
-		if conf.AuthInternalUsers != nil && !reflect.DeepEqual(conf.AuthInternalUsers, defaultAuthInternalUsers) {
+		if conf.AuthInternalUsers != nil && !reflect.DeepEqual(conf.AuthInternalUsers, copyDefaultAuthInternalUsers()) {
 			return fmt.Errorf("authInternalUsers and legacy credentials " +
 				"(publishUser, publishPass, publishIPs, readUser, readPass, readIPs) cannot be used together")
 		}
